@@ -201,7 +201,10 @@ def execute(pid, tier, seed, cases, assumptions, extra_cov=None, budget_s=None, 
         c, kind = qcase[r['name']]
         st = r.get('status')
         if kind == 'cover':
-            if st == 'uncovered':
+            mainst = (byname.get(c.name + ('+excl' if c._exdefs else '')) or {}).get('status')
+            if mainst not in ('holds', 'fails'):
+                undecided.append(r['name'])          # the case's own query has no verdict: its final loop bounds are unknown
+            elif st == 'uncovered':
                 broken.append('coverage goal(s) of %s unreachable (the harness does not exercise what it claims): %s' % (c.name, ['line %s: %s' % (l, d) for l, d, g in r.get('cover', []) if g != 'SATISFIED'][:3]))
             elif st == 'skipped': skipped.append(r['name'])
             elif st != 'covered': undecided.append(r['name'])
